@@ -633,9 +633,23 @@ Section WithTables.
     - destruct (skip_ws s) eqn:W; [|discriminate]. inversion H; subst. constructor. now apply skip_ws_nil.
   Qed.
 
-  Theorem lex_tiles s ts : lex s = Some ts -> exists ts', ts = start_token :: ts' /\ tiles 0 s ts'.
+  (* what an accepted source is: the token loop succeeded and no token is a non-finite number literal *)
+  Lemma lex_inv s ts : lex s = Some ts ->
+    exists ts', lex_loop (S (List.length s)) 0 s = Some ts' /\ forallb (tok_finite) ts' = true /\ ts = start_token :: ts'.
   Proof.
     unfold Lexer.lex. destruct (lex_loop (S (List.length s)) 0 s) as [ts'|] eqn:E; [|discriminate].
-    intros H; inversion H; subst. exists ts'. split; [reflexivity|]. eapply lex_loop_tiles; eauto.
+    destruct (forallb tok_finite ts') eqn:F; [|discriminate]. intros H; inversion H; subst. exists ts'. auto.
+  Qed.
+
+  (* an accepted source contains no non-finite number literal *)
+  Theorem lex_tokens_finite s ts t : lex s = Some ts -> In t ts -> tok_finite t = true.
+  Proof.
+    intros H I. apply lex_inv in H as (ts' & _ & F & ->). destruct I as [<-|I]; [reflexivity|].
+    rewrite forallb_forall in F. auto.
+  Qed.
+
+  Theorem lex_tiles s ts : lex s = Some ts -> exists ts', ts = start_token :: ts' /\ tiles 0 s ts'.
+  Proof.
+    intros H. apply lex_inv in H as (ts' & E & _ & ->). exists ts'. split; [reflexivity|]. eapply lex_loop_tiles; eauto.
   Qed.
 End WithTables.
